@@ -608,6 +608,13 @@ class Searcher:
         a, b = self.run_expr(e, env, 'inline')
         if any(r[0] == 'ok' and has_undef(r[1]) for r in (a, b)):
             return True
+        if e[0] in ('over', 'scan') and e[1] == '%':
+            # a zero among the divisors sends %/ and %\ through the fold of the Divide verb:
+            # :undefined appears inside the fold (and the next step usually raises)
+            for r in self.run_expr(e[2], env, 'inline'):
+                if r[0] == 'ok' and r[1][0] == 'L' and any(l[0] in 'ir' and l[1] == 0
+                                                            for x in r[1][1][1:] for l in leaves(x)):
+                    return True
         return any(self.undefined_inside(c, env) for c in children(e))
 
     def check_model(self, case, which, mres, real):
